@@ -73,6 +73,13 @@ def _case(args):
         if v[:4] != base[:4]:
             what = 'stdout' if v[0] != base[0] else 'stderr' if v[1] != base[1] else 'status'
             res['diffs'].append((vname, what, repr((base[2], base[1][:150], v[2], v[1][:150]))))
+    # without -t the target is the built-in default, whatever the environment suggests
+    nt = run([exe, path])
+    ntv = run([exe, path], {'CPROC_TARGET': 'aarch64', 'TARGET': 'riscv64', 'ARCH': 'arm64', 'CPROC': 'x', 'QBE_TARGET': 'rv64', 'CPROCFLAGS': '-t riscv64', 'CFLAGS': '-t aarch64', 'POSIXLY_CORRECT': '1',
+                            'TMPDIR': '/nonexistent', 'HOME': '/nonexistent', 'LANGUAGE': 'de', 'COLUMNS': '10', 'CC': 'false', 'CPP': 'false', 'SOURCE_DATE_EPOCH': '0', 'USER': 'nobody'})
+    res['n'] += 2
+    if ntv[:4] != nt[:4]:
+        res['diffs'].append(('no -t, target-like environment variables', 'stdout' if ntv[0] != nt[0] else 'stderr/status', repr((nt[2], nt[1][:100], ntv[2], ntv[1][:100]))))
     # -o file vs stdout
     of = os.path.join(sub, 'o.qbe')
     r = run([exe, '-t', target, '-o', of, path])
@@ -116,12 +123,15 @@ def _case(args):
         if os.path.exists(lg):
             os.unlink(lg)
         run([exe, '-t', target, path], {'LD_PRELOAD': shim, 'C20_AUDIT_LOG': lg})
-        res['n'] += 1
+        run([exe, path], {'LD_PRELOAD': shim, 'C20_AUDIT_LOG': lg})
+        res['n'] += 2
         if os.path.exists(lg):
             for line in open(lg):
                 w = line.split()
                 if w and w[0] in ('setlocale', 'time', 'rand', 'random'):
                     res['audit'].append('libc call: ' + line.strip())
+                if w and w[0] == 'getenv' and len(w) > 1 and not w[1].startswith('CPROC_VERIF_'):
+                    res['audit'].append('reads the environment: ' + line.strip())
             os.unlink(lg)
     if do_strace:
         sl = os.path.join(sub, 'strace.log')
@@ -165,12 +175,12 @@ def run(tier):
     if rc == 0:
         # the monitor must be seen to fire: a program that calls setlocale and time under the shim
         tsrc = os.path.join(wd, 'shimtest.c')
-        common.write(tsrc, '#include <locale.h>\n#include <time.h>\nint main(void) { setlocale(LC_ALL, ""); return time(0) == 0; }\n')
+        common.write(tsrc, '#include <locale.h>\n#include <time.h>\n#include <stdlib.h>\nint main(void) { setlocale(LC_ALL, ""); return time(0) == 0 || getenv("VF_SHIMTEST_NAME") != 0; }\n')
         common.sh(['gcc', '-o', os.path.join(wd, 'shimtest'), tsrc])
         lg = os.path.join(wd, 'shimtest.log')
         subprocess.run([os.path.join(wd, 'shimtest')], env={'LD_PRELOAD': shim, 'C20_AUDIT_LOG': lg})
         seen = open(lg).read() if os.path.exists(lg) else ''
-        if 'setlocale' not in seen or 'time' not in seen:
+        if 'setlocale' not in seen or 'time' not in seen or 'getenv VF_SHIMTEST_NAME' not in seen:
             raise common.HarnessError('the LD_PRELOAD audit shim does not record calls (self-test log: %r)' % seen[:100])
     if rc != 0:
         raise common.HarnessError('shim build failed: ' + e.decode())
@@ -242,10 +252,10 @@ def run(tier):
             ck.violation('audit:' + re.sub(r'\d+', 'N', a)[:60], '%s -t %s: %s' % (r['name'], r['target'], a),
                          {'input.c': open([p for n, p in files if n == r['name']][0], 'rb').read()})
     ck.extra['valgrind_runs'] = nvg
-    ck.extra['perturbations_per_input'] = 23
+    ck.extra['perturbations_per_input'] = 26
     ck.extra['locale_note'] = 'only C/POSIX/C.UTF-8 locales are installed: a decimal-comma locale cannot change a byte here; the setlocale interposer is what would expose such a dependency'
     ck.sample({'perturbations': ['repeat', 'LC_ALL x3', 'TZ', 'MALLOC_PERTURB_ x3', 'malloc tunables', 'ASLR off/on', 'cwd relative x2', 'stdin file', 'stdin pipe chunks',
                                  'env empty/crowded', 'stack size', 'binary built by clang -O2', 'binary built by gcc -O0', '-o file', 'argv[0]', 'LD_PRELOAD audit', 'strace audit (1/5)', 'valgrind (1/8)']})
-    ck.rule = 'inputs: suite, corpus, generated valid, odd-shaped and mutated (mostly invalid) programs; 23 perturbed runs each, byte comparison after replacing the given input name; non-trivial = >200 bytes of output or a diagnostic'
+    ck.rule = 'inputs: suite, corpus, generated valid, odd-shaped and mutated (mostly invalid) programs; 26 perturbed runs each, byte comparison after replacing the given input name; non-trivial = >200 bytes of output or a diagnostic'
     ck.assumptions = ['diagnostics may differ only in the input file name they were given and in argv[0]']
     return ck.finish(min_decided=500)
